@@ -137,6 +137,24 @@ def stepLine (s : Option DSt) (line : String) : Option DSt × String :=
     match s with
     | none => (some ⟨⟨St.init, none⟩, np == "1"⟩, "ok | " ++ serL St.init.root ++ " | fd=-")
     | some _ => (s, "bad-op")
+  | "race" :: k :: rest =>
+    -- race <k> <intruder op ...> @ <trigger op ...>
+    let intrTs := rest.takeWhile (· ≠ "@")
+    let trigTs := (rest.dropWhile (· ≠ "@")).drop 1
+    let trig : Option Trig := match trigTs with
+      | ["fdflush"] => some .fdflush
+      | ["fdclose"] => some .fdclose
+      | _ => match parseOp trigTs with
+        | some (.base o) => some (.op o)
+        | _ => none
+    match s, trig, parseOp intrTs with
+    | some st, some t, some (.base intr) =>
+      let r := stepRace st.s k.toNat! t intr
+      let str := fun (x : Except Err Out) => match x with
+        | .ok o => outStr o
+        | .error e => errStr e
+      (some ⟨r.1, st.nopub⟩, str r.2.1 ++ " ; " ++ str r.2.2 ++ " | " ++ serL r.1.st.root ++ " | fd=" ++ fdStr r.1.fd)
+    | _, _, _ => (s, "bad-op")
   | _ =>
     match s, parseOp ts with
     | some st, some op =>
